@@ -1,7 +1,7 @@
 (* C08 - theorems about kernel K3 = CodeBuilder.get_dialect_or_config_option as translated
    from /repo on this run (VerifGen.K3), and its link to OptProj.look. *)
 From Coq Require Import List String Ascii ZArith Bool.
-From Verif Require Import Regex PyK OptProj.
+From Verif Require Import Regex PyK OptProj OptEnc.
 From VerifGen Require Import K3.
 Import ListNotations.
 Open Scope string_scope.
@@ -27,18 +27,6 @@ Proof.
   destruct (kv_eqb (k_getattr3 c (KStr opt) KMissing) KMissing); cbn [negb k_truthy]; [|reflexivity].
   destruct (kv_eqb (k_getattr3 dd (KStr opt) KMissing) KMissing); cbn [negb k_truthy]; reflexivity.
 Qed.
-
-(* ---- encoding of the model's option namespaces as kernel values ---- *)
-Definition enc_tri (t: tri) : kv := match t with U => KMissing | F => KBool false | T => KBool true end.
-Definition enc_ns (n: ns) : kv :=
-  KNs [("omit_none", enc_tri n.(n_on)); ("omit_default", enc_tri n.(n_od)); ("serialize_by_alias", enc_tri n.(n_ba))].
-Definition enc_ons (o: option ns) : kv := match o with Some n => enc_ns n | None => KNone end.
-
-Inductive optname := OOmitNone | OOmitDefault | OByAlias.
-Definition opt_str (x: optname) : string :=
-  match x with OOmitNone => "omit_none" | OOmitDefault => "omit_default" | OByAlias => "serialize_by_alias" end.
-Definition opt_sel (x: optname) : ns -> tri :=
-  match x with OOmitNone => n_on | OOmitDefault => n_od | OByAlias => n_ba end.
 
 Lemma ns_opt_enc o x : ns_opt (enc_ons o) (opt_str x) = enc_tri (sel (opt_sel x) o).
 Proof. destruct o as [n|]; destruct x; reflexivity. Qed.
